@@ -14,6 +14,8 @@ miss=0
 for n in $names; do
   # the check recorded as catching it (normally the one of its property)
   c=$(python3 -c "import json;m=json.load(open('seeded/$n/meta.json'));r=[x for x in m.get('checks_run',[]) if x.startswith('c')];print(r[0] if r else m['property'].lower())")
+  # a change kept as a recorded miss (meta.json caught_by_quick_check=false) is listed, not expected to be caught
+  if [ "$(python3 -c "import json;print(json.load(open('seeded/$n/meta.json')).get('caught_by_quick_check',True))")" = False ] && [ -z "${SEEDS_WITH_MISSES:-}" ]; then echo "$n: recorded miss (no check catches it yet; see DESIGN 8.5)"; continue; fi
   if ! git -C "$WT" apply --check "$PWD/seeded/$n/patch.diff" 2>/dev/null; then echo "$n: PATCH DOES NOT APPLY (needs rebase)"; miss=1; continue; fi
   git -C "$WT" apply "$PWD/seeded/$n/patch.diff"
   out=$(VERIF_REPO="$WT" ./vcheck run $c quick 2>&1); rc=$?
